@@ -1,11 +1,156 @@
 import SigModel.Driver.Loop
+import SigModel.Spec.SessionId
 
-/-! Driver for C15 — stub (no model yet). -/
+/-!
+Driver for C15.  Ops (tokens; ids percent-encoded, byte strings as `x<hex>`):
+
+* `keys <ks> <x hash key> <x block key | ->`            define a key set
+* `oracle <ks> <x value> <x plain | bad>`               decrypt∘deserialise of one value (from stdlib AES / proto, not from the code under test)
+* `mint <p|q> <ks> <now> <x data> <x value> <label>`    real `EncodePrivate/EncodePublic` (clock and IV pinned) → `id <tok>` | `err`
+* `forge <p|q> <ks> <x data> <id> <label>`              id built by the harness with the keys of `ks` (registers it as minted)
+* `dec <p|q> <ks> <id> <label>`                         (label = the mint/forge op the string derives from) `DecodePrivate/DecodePublic` → `ok <x data>` | `err`
+* `hdec <p|q> <ks> <id> <label>`                              `Hub.decode{Private,Public}SessionId` → `ok <x data> c<0|1>` | `err c<0|1>`  (c = cache holds the key afterwards)
+* `hinv <p|q> <ks> <id>`                                `Hub.invalidateSessionId` → `- c0|c1`
+* `hreg <ks> <now> <x data> <x value priv> <x value pub> <label>`  mint both + `setDecodedSessionId` → `ids <tok> <tok>` | `err`
+* `hmac <x key> <x msg>`                                 Lean HMAC-SHA256 vs Go's → `x<hex>`
+-/
 namespace SigModel.Driver.C15
+open SigModel SigModel.Proto SigModel.SessionId
+
+structure KeySet where
+  hashKey : Bytes
+  blockKey : Option Bytes
+  deriving Repr
 
 structure St where
-  dummy : Unit := ()
+  keys : List (String × KeySet) := []
+  oracle : List (String × Bytes × Option Bytes) := []
+  hubs : List (String × Hub) := []
+  judge : Judge := {}
+  /-- labels of the mint/forge/hreg ops seen in this case: a decode op names the one its
+  string was derived from and is judged only if that op is (still) part of the case, so
+  that shrinking a case cannot turn a valid id into an "unminted" one -/
+  labels : List String := []
 
-def step (st : St) (_op _impl : List String) : St × String × String := (st, "bad-op", "na")
+def xhex (b : Bytes) : String := "x" ++ Bytes.toHexString b
+
+def parseX (tok : String) : Option Bytes :=
+  if hasPrefix "x" tok then Bytes.ofHexString (dropS 1 tok) else none
+
+def parseKind : String → Option Kind
+  | "p" => some .priv
+  | "q" => some .pub
+  | _ => none
+
+def St.keyset (st : St) (ks : String) : Option KeySet := (st.keys.find? (·.1 == ks)).map (·.2)
+
+def St.hub (st : St) (ks : String) (k : KeySet) : Hub :=
+  match st.hubs.find? (·.1 == ks) with
+  | some (_, h) => h
+  | none => { hashKey := k.hashKey }
+
+def St.setHub (st : St) (ks : String) (h : Hub) : St :=
+  { st with hubs := (ks, h) :: st.hubs.filter (·.1 != ks) }
+
+/-- decrypt ∘ deserialise, as told by the harness oracle; without a block key the
+value *is* the serialised data unless the oracle says it does not deserialise. -/
+def St.open_ (st : St) (ks : String) (k : KeySet) (v : Bytes) : Option Bytes :=
+  match st.oracle.find? (fun e => e.1 == ks && e.2.1 == v) with
+  | some (_, _, r) => r
+  | none => if k.blockKey.isSome then some [63] else some v
+
+def mac : Hmac.Mac := Hmac.hmacSha256
+
+def showDec : Option Bytes → String
+  | some d => "ok " ++ xhex d
+  | none => "err"
+
+def parseImplDec : List String → Option (Option Bytes)
+  | "ok" :: d :: _ => (parseX d).map some
+  | "err" :: _ => some none
+  | _ => none
+
+def cflag (h : Hub) (k : Kind) (id : Bytes) : String :=
+  if (h.cache.get (cacheKey k id)).isSome then "c1" else "c0"
+
+def step (st : St) (op impl : List String) : St × String × String :=
+  -- trailing `#tag` tokens only label the op for the statistics
+  let op := op.filter (fun t => !hasPrefix "#" t)
+  match op with
+  | ["keys", ks, hk, bk] =>
+    match parseX hk, (if bk == "-" then some none else (parseX bk).map some) with
+    | some h, some b => ({ st with keys := (ks, ⟨h, b⟩) :: st.keys.filter (·.1 != ks) }, "-", "na")
+    | _, _ => (st, "bad-op", "na")
+  | ["oracle", ks, v, p] =>
+    match parseX v, (if p == "bad" then some none else (parseX p).map some) with
+    | some v, some p => ({ st with oracle := (ks, v, p) :: st.oracle }, "-", "na")
+    | _, _ => (st, "bad-op", "na")
+  | ["hmac", k, m] =>
+    match parseX k, parseX m with
+    | some k, some m => (st, xhex (Hmac.hmacSha256 k m), "na")
+    | _, _ => (st, "bad-op", "na")
+  | ["mint", kind, ks, now, data, value, lbl] =>
+    match parseKind kind, st.keyset ks, toNat? now, parseX data, parseX value with
+    | some k, some key, some now, some data, some value =>
+      let m := match encodeId mac key.hashKey k now value with
+        | some id => "id " ++ encBytes id
+        | none => "err"
+      -- the judge records what the implementation minted
+      let (j, v) := match impl with
+        | ["id", tok] =>
+          match decBytes tok with
+          | some id => (st.judge.add ⟨key.hashKey, key.blockKey.getD [], k, id, data, true⟩, "ok")
+          | none => (st.judge, "na")
+        | _ => (st.judge, "na")
+      ({ st with judge := j, labels := lbl :: st.labels }, m, v)
+    | _, _, _, _, _ => (st, "bad-op", "na")
+  | ["forge", kind, ks, data, idtok, lbl] =>
+    match parseKind kind, st.keyset ks, parseX data, decBytes idtok with
+    | some k, some key, some data, some id =>
+      ({ st with judge := st.judge.add ⟨key.hashKey, key.blockKey.getD [], k, id, data, false⟩,
+                 labels := lbl :: st.labels }, "-", "na")
+    | _, _, _, _ => (st, "bad-op", "na")
+  | ["dec", kind, ks, idtok, lbl] =>
+    match parseKind kind, st.keyset ks, decBytes idtok with
+    | some k, some key, some id =>
+      let r := decodeId mac key.hashKey (st.open_ ks key) k 0 id
+      let v := match parseImplDec impl with
+        | some i => if st.labels.contains lbl then st.judge.observeDecode key.hashKey (key.blockKey.getD []) k id i else "na"
+        | none => "na"
+      (st, showDec r, v)
+    | _, _, _ => (st, "bad-op", "na")
+  | ["hdec", kind, ks, idtok, lbl] =>
+    match parseKind kind, st.keyset ks, decBytes idtok with
+    | some k, some key, some id =>
+      let (h, r) := (st.hub ks key).decode mac (st.open_ ks key) k 0 id
+      let v := match parseImplDec impl with
+        | some i => if st.labels.contains lbl then st.judge.observeDecode key.hashKey (key.blockKey.getD []) k id i else "na"
+        | none => "na"
+      (st.setHub ks h, showDec r ++ " " ++ cflag h k id, v)
+    | _, _, _ => (st, "bad-op", "na")
+  | ["hinv", kind, ks, idtok] =>
+    match parseKind kind, st.keyset ks, decBytes idtok with
+    | some k, some key, some id =>
+      let h := (st.hub ks key).invalidate k id
+      (st.setHub ks h, "- " ++ cflag h k id, "na")
+    | _, _, _ => (st, "bad-op", "na")
+  | ["hreg", ks, now, data, vp, vq, lbl] =>
+    match st.keyset ks, toNat? now, parseX data, parseX vp, parseX vq with
+    | some key, some now, some data, some vp, some vq =>
+      let (h, r) := (st.hub ks key).register mac now vp vq data
+      let m := match r with
+        | some (p, q) => "ids " ++ encBytes p ++ " " ++ encBytes q
+        | none => "err"
+      let (j, v) := match impl with
+        | ["ids", pt, qt] =>
+          match decBytes pt, decBytes qt with
+          | some p, some q =>
+            ((st.judge.add ⟨key.hashKey, key.blockKey.getD [], .priv, p, data, true⟩).add
+              ⟨key.hashKey, key.blockKey.getD [], .pub, q, data, true⟩, "ok")
+          | _, _ => (st.judge, "na")
+        | _ => (st.judge, "na")
+      ({ st.setHub ks h with judge := j, labels := lbl :: st.labels }, m, v)
+    | _, _, _, _, _ => (st, "bad-op", "na")
+  | _ => (st, "bad-op", "na")
 
 end SigModel.Driver.C15
